@@ -1,6 +1,6 @@
 #!/venv/bin/python
 """Run every registered quick check against every kept seed WITHOUT touching /repo:
-   tools/seed_matrix.py [seed names...]   ->  seeded/MATRIX.json + table on stdout
+   tools/seed_matrix.py [seed names...]   ->  seeded/MATRIX.json (named seeds: rows merged into it) + table on stdout
 For each seeded/<name>/patch.diff: fresh git worktree of /repo HEAD under /tmp, patch applied, all quick checks run with
 --root <worktree> (evidence redirected to a scratch directory), worktree removed.  The demonstration programs are not
 run here (tools/try_seed.py / confirm_seed.py do that)."""
@@ -49,5 +49,11 @@ for name in names:
     print(f"{name:8s} target={o.get('property')} caught-by-own={'yes ' + ','.join(own) if own else 'NO'}  "
           f"others={ {k: v for k, v in o.get('violation', {}).items() if k != o.get('property')} }  "
           f"errors={list(o.get('analysis_error', {}))}", flush=True)
-if not sys.argv[1:]:
-    json.dump(out, open(f"{V}/seeded/MATRIX.json", "w"), indent=1, sort_keys=True)
+if sys.argv[1:]:   # partial run: merge the re-evaluated rows into the table of the last full run
+    try:
+        full = json.load(open(f"{V}/seeded/MATRIX.json"))
+    except OSError:
+        full = {}
+    full.update(out)
+    out = full
+json.dump(out, open(f"{V}/seeded/MATRIX.json", "w"), indent=1, sort_keys=True)
